@@ -797,3 +797,39 @@ package websocket
 //@ ensures [ext-echo] {C14} err == nil && result0.copts != nil ==> ghhdr(specRespHeader(w)).vals["Sec-WebSocket-Extensions"] == specOptsHeader(result0.copts.clientNoContextTakeover, result0.copts.serverNoContextTakeover)
 //@ ensures [compression-only-if-enabled] {C14} err == nil && (opts == nil || opts.CompressionMode == CompressionDisabled) ==> result0.copts == nil
 //@ ensures [forbidden] {C12} specValidUpgrade(r) && !(opts != nil && opts.InsecureSkipVerify) && !specOriginAuthorised(r, specOriginPatterns(opts)) ==> err != nil && ghresp(w).status == 403 && !ghresp(w).hijacked
+// ---------------------------------------------------------------------------
+// dial.go: opening handshake, client side (C13 request side)
+
+//@ func handshakeRequest
+//@ tags C13
+//@ requires opts != nil && opts.HTTPClient != nil && ctx != nil
+//@ modifies ghclient(opts.HTTPClient).sent, mapof(ghhdr(specCloneOf(opts.HTTPHeader)).vals)
+//@ ensures [fresh-response] result1 == nil ==> gvcFresh(result0)
+//@ ensures [well-formed] result1 == nil ==> result0 != nil && specUpgradeRequestSent(ghclient(opts.HTTPClient).sent, opts, copts, secWebSocketKey)
+
+//@ func secWebSocketKey
+//@ tags C13
+//@ requires ghconn(specRandSrc(rr)) == nil
+//@ modifies ghrd(specRandSrc(rr)).pos
+//@ ensures [fresh-random-key] result1 == nil ==> result0 == specKeyFrom(specRandSrc(rr), old(ghrd(specRandSrc(rr)).pos)) && ghrd(specRandSrc(rr)).pos == old(ghrd(specRandSrc(rr)).pos)+16
+
+//@ func (*DialOptions).cloneWithDefaults
+//@ assumed copies the options, installs http.DefaultClient / a redirect hook / an empty header map where missing (not under contract: closures and http.Client copies); the protocol-relevant fields are preserved
+//@ ensures result2 != nil && gvcFresh(result2) && result2.HTTPClient != nil && result0 != nil
+//@ ensures [preserved] gvcSameSlice(result2.Subprotocols, specDialSubprotocols(opts)) && (opts != nil ==> result2.CompressionMode == opts.CompressionMode && result2.Host == opts.Host) && (opts == nil ==> result2.CompressionMode == CompressionDisabled && result2.Host == "")
+
+//@ func getBufioReader
+//@ assumed pool access
+//@ ensures result != nil
+//@ func getBufioWriter
+//@ assumed pool access
+//@ ensures result != nil
+
+//@ func dial
+//@ tags C13
+//@ requires ctx != nil && ghconn(specRandSrc(rand)) == nil
+//@ modifies ghrd(specRandSrc(rand)).pos
+//@ ensures [no-conn-on-error] err != nil ==> result0 == nil
+//@ ensures [conn-only-if-valid] err == nil ==> result0 != nil && result1 != nil && specValidResponse(specDialSubprotocols(opts), specKeyFrom(specRandSrc(rand), old(ghrd(specRandSrc(rand)).pos)), result1)
+//@ ensures [client-role] err == nil ==> result0.client
+
